@@ -761,6 +761,7 @@ def make_literal_kind_probes(ctx, full=False):
     probes, must = [], []
     j = 0
     for kind, txt, at, val, tag in srcs:
+        mv = (len(val), int.from_bytes(val, "big")) if isinstance(val, bytes) else (0, 0)
         for T in KIND_TARGETS:
             if T == at:
                 continue
@@ -770,13 +771,15 @@ def make_literal_kind_probes(ctx, full=False):
                         continue  # quick: one run-time location per (source, target, spelling), rotating
                     rt = tmpl.format(T=T, A=at)
                     if spelled == "literal":
-                        pr = P.Probe("convkind", None, (kind, tag, T, spelled, where), f"convert({txt}, {T})", [at], rt, (val,), T)
+                        pr = P.Probe("convkind", None, (kind, tag, T, spelled, where) + mv, f"convert({txt}, {T})", [at], rt, (val,), T)
                     else:
-                        pr = P.Probe("convkind", None, (kind, tag, T, spelled, where), f"convert(K{{i}}, {T})", [at], rt, (val,), T,
+                        pr = P.Probe("convkind", None, (kind, tag, T, spelled, where) + mv, f"convert(K{{i}}, {T})", [at], rt, (val,), T,
                                      pre=f"K{{i}}: constant({at}) = {txt}\n")
                     probes.append(pr)
-                    if kind in ("HexBytes", "Bytes", "Hex") and tag.split("/")[0] in ("first-bit-set", "all-ones") and T in ("int16", "int64", "int256", "decimal") \
-                            and tag.split("/")[1] in ("1", "2", "3"):
+                    if kind in ("HexBytes", "Bytes", "Hex") and tag.split("/")[0] in ("first-bit-set", "all-ones") and T in ("int16", "int256") \
+                            and tag.split("/")[1] in ("1", "2"):
+                        must.append(pr)
+                    elif tag == "empty/0" and T == "int256" and spelled == "literal":
                         must.append(pr)
             j += 1
     if full or ctx.tier != "quick":
@@ -786,7 +789,7 @@ def make_literal_kind_probes(ctx, full=False):
         return probes
     keep = set(map(id, must))
     rest = [p for p in probes if id(p) not in keep]
-    return must + rnd.sample(rest, min(len(rest), 110))
+    return must + rnd.sample(rest, min(len(rest), 50))
 
 
 def literal_position_probes(ctx):
@@ -860,6 +863,14 @@ def model_exprs(p):
             tin, tout, v = p.ops
             e = f"enc3 (Verif.C03.ConvSpec.conv_spec {_cty(tin)} {_cty(tout)} {coqrun.hexlit(v)})"
             return f"{e} ++ {e}"
+        if p.form == "convkind":
+            # bytes-like literal of m >= 1 bytes into an integer type: the model / spec of hex literals (Bytes[N] values of
+            # length m convert like bytesM: the number of the m bytes, sign-extended from 8m bits into signed types)
+            kind, _, T, _, _, m, val = p.ops
+            if kind in ("HexBytes", "Bytes", "Hex") and m >= 1 and T[:3] in ("int", "uin"):
+                ty = coq_ty((T.startswith("int"), int(T.lstrip("uint"))))
+                return f"enc (literal_int (LHex {m} {coqrun.hexlit(val)}) {ty}) ++ enco (convert_int_spec (SBytesM {m} {coqrun.hexlit(val)}) {ty})"
+            return None
         o = [coqrun.hexlit(x) for x in p.ops]
         if p.form == "convert_dec_int":
             ty = coq_ty((bool(p.ops[1]), p.ops[2]))
@@ -958,7 +969,9 @@ def run_probes(ctx, probes, cfgs, tag, with_model=True):
     P.run_literal_side(probes, cfgs_for_batch, front, stats=stats)
     _t1 = _t.time()
     # literal-operand pow functions are one run-time function per probe: fewer configurations for those
-    P.run_runtime_side([p for p in probes if p.form != "Pow"], cfgs, front, stats=stats)
+    P.run_runtime_side([p for p in probes if p.form not in ("Pow", "convkind")], cfgs, front, stats=stats)
+    # one run-time function per (source type, target, location): the first four configurations (both pipelines) in the quick tier
+    P.run_runtime_side([p for p in probes if p.form == "convkind"], cfgs[:4] if len(cfgs) <= 10 else cfgs, front, stats=stats)
     P.run_runtime_side([p for p in probes if p.form == "Pow"], cfgs[:4] if len(cfgs) <= 10 else cfgs[:8], front, stats=stats)
     _t2 = _t.time()
     ctx.corr.setdefault("phase_seconds", {})
@@ -1027,11 +1040,19 @@ def run_probes(ctx, probes, cfgs, tag, with_model=True):
             ctx.corr["literal_side_runtime_reverts"] = ctx.corr.get("literal_side_runtime_reverts", 0) + 1
         if len(lv | rv) > 1 or (lv and len(lv) > 1):
             n_fail += 1
+            if p.form == "convkind":  # one report per (literal kind, content class, target class)
+                k_ = (p.ops[0], p.ops[1].split("/")[0], p.ret.startswith("int"))
+                seen_keys = ctx.corr.setdefault("_convkind_reported", [])
+                if list(k_) in seen_keys:
+                    ctx.corr["convkind_further_failing_probes"] = ctx.corr.get("convkind_further_failing_probes", 0) + 1
+                    continue
+                seen_keys.append(list(k_))
             ctx.violation("failing-input", f"folded value differs from run-time value: {p.form} on {p.ret}",
                           {"probe": p.ident(), "literal_side": {k: str(v) for k, v in lit_vals.items()},
                            "runtime_side": {k: str(v) for k, v in rt_vals.items()},
                            "how": "compile both functions with vyper.compiler.compile_code under the named configuration, deploy, call"},
-                          key=f"c17:{p.form}:{p.ret}:{p.expr_lit}")
+                          key=(f"c17:convkind:{p.ops[0]}:{p.ops[1].split('/')[0]}:{'signed' if p.ret.startswith('int') else p.ret}"
+                               if p.form == "convkind" else f"c17:{p.form}:{p.ret}:{p.expr_lit}"))
             continue
         if i in preds:
             fm, sm = preds[i]
